@@ -212,3 +212,7 @@ Section Tot.
       rewrite (csum_ext _ _ N Hx). rewrite csum_scal. apply Cmult_comm.
   Qed.
 End Tot.
+
+(* non-vacuity of the convolution-chain theorems: real arrays exist in abundance, e.g. the unit impulse *)
+Example chain_hypotheses_hold : forall y x, is_real (delta2 1 2 y x).
+Proof. intros. apply delta2_real. Qed.
